@@ -21,15 +21,13 @@
     sources (`attributes_average`), and attributes that are an affine function of the position
     are reproduced (`affine_attributes_reproduced`).
 
-  FALSE of the current code, with a concrete witness on the model (reproduced on the real code by
-  the oracle, see findings.d/C07.json):
-  * `rep_split_at_vertex_witness`  the lower part of an edge split at a vertex lying on it keeps
-    the source record's stale `range.start`; the next cut reports t = 1/2 for the point at 3/4.
-    The true part is `rep_split_at_vertex_partial`: histories without such a split keep `Rep`.
+  * preserved by the split of an edge at a vertex lying on it (`rep_split_at_vertex`, since fix
+    6bc52f98), hence along every history of cuts (`rep_history`).
 
   Repaired in /repo (model updated, full theorems proved, former witnesses described in the
-  comments of `rep_coincident` and `rep_curve`): coincident level edges (456c058b), curves drawn
-  against the sweep (8662f1bc).
+  comments of `rep_coincident`, `rep_curve`, `rep_split_at_vertex`): coincident level edges
+  (456c058b), curves drawn against the sweep (8662f1bc), stale `range.start` after a split at a
+  vertex lying on an edge (6bc52f98).
 
   Not covered by theorems: IEEE rounding (oracle envelope), the sweep that decides which cut
   happens when (only the cuts themselves are modelled), `t` on curves after a cut of a flattened
@@ -268,54 +266,43 @@ example :
   refine ⟨⟨by simp [pendingOf, lerp_zero], by simp [pendingOf, lerp_one]⟩, by simp [pendingOf], 2/3, ?_⟩
   simp [pendingOf, lerp_def]; norm_num
 
-/-- **Witness (defect)**, the property file's example. Edge `A = (0,0) → B = (0,10)`; a vertex of
-another sub-path at (0,5) splits it (`edges_to_split`); the lower part, now active from (0,5), is
-crossed at (0,7.5), i.e. at `ta = 1/2` of the active edge. The record created there reports
-`t = 1/2`, although (0,7.5) is at 3/4 of the edge: `Rep` fails. -/
-theorem rep_split_at_vertex_witness :
-    let A : P ℚ := ⟨0, 0⟩
-    let B : P ℚ := ⟨0, 10⟩
-    let r0 : EdgeRec ℚ := ⟨A, B, 0, 1, 1, true, 0, 1⟩
-    let a0 := activate A (pendingOf r0)
-    let lower := (splitAtVertex ⟨0, 5⟩ a0).2
-    let a1 := activate ⟨0, 5⟩ lower
-    let ip : P ℚ := ⟨0, 15/2⟩
-    RepActive (P.lerp A B) a0 ∧ ip = P.lerp a1.from_ a1.to (1/2) ∧ ¬ RepActive (P.lerp A B) a1 ∧
-    ∃ r, (cutActive a1 (1/2) ip).2 = some r ∧ r.pos = ip ∧ r.t0 = 1/2 ∧
-      sourceOf r = .edge 0 1 (1/2) ∧ P.lerp A B r.t0 = ⟨0, 5⟩ ∧ P.lerp A B (3/4) = ip ∧
-      ¬ RepRec (P.lerp A B) r := by
-  refine ⟨⟨by simp [activate, pendingOf, lerp_zero], by simp [activate, pendingOf, lerp_one]⟩, ?_, ?_, ?_⟩
-  · simp [activate, splitAtVertex, pendingOf, lerp_def]; norm_num
-  · intro h
-    have h1 := h.1
-    simp [activate, splitAtVertex, pendingOf, lerp_def] at h1
-  · refine ⟨⟨⟨0, 15/2⟩, ⟨0, 10⟩, 1/2, 1, 1, true, 0, 1⟩, ?_, rfl, rfl, ?_, ?_, ?_, ?_⟩
-    · simp [cutActive, activate, splitAtVertex, pendingOf, beq_P, isAfter, beq_K, remapT_eq]
-      norm_num
-    · simp [sourceOf, beq_K]
-    · simp [lerp_def]; norm_num
-    · simp [lerp_def]; norm_num
-    · intro h
-      have h1 := h.1
-      simp [lerp_def] at h1
-      norm_num at h1
+/-- `rep_split_at_vertex`: when the current position `cur` lies on an active edge satisfying `Rep`,
+the lower part pushed by the `edges_to_split` branch — with its own edge data since fix 6bc52f98 —
+satisfies `Rep` as a pending edge starting at `cur`: its `range.start` is the parameter of `cur`.
+Hence it becomes an active edge satisfying `Rep` and every later cut of it creates `Rep` records
+(`rep_intersection`, `rep_coincident`).
 
-/-- Histories of an active edge that never go through the lower part of `splitAtVertex`: created
-from a record of the queue, truncated by intersections, restarted by the
-`current_position == intersection` branch. -/
+Before 6bc52f98 the lower part shared the source record and kept its stale `range.start`; only
+`rep_split_at_vertex_partial` (histories without such a split, an inductive `Reach` without the
+`split` constructor below) held, and the witness `rep_split_at_vertex_witness` was a theorem about
+the old model: edge A = (0,0) → B = (0,10), a vertex at (0,5) splits it, the lower part is crossed
+at (0,7.5) (`ta = 1/2`): the record reported t = 1/2 although (0,7.5) is at 3/4. It is retired with
+the old model; the same input is the non-vacuity example below, now yielding t = 3/4. -/
+theorem rep_split_at_vertex (C : K → P K) (hC : AffineParam C) (cur : P K) (a : Active K)
+    (ha : RepActive C a) (hne : a.from_ ≠ a.to) (hon : ∃ u, cur = P.lerp a.from_ a.to u) :
+    RepPending C cur (splitAtVertex cur a).2 := by
+  obtain ⟨u, hu⟩ := hon
+  have ht : splitT a.from_ a.to cur = u := by rw [hu]; exact splitT_on a.from_ a.to u hne
+  have key := cut_key C hC a.from_ a.to a.src.t0 a.rangeEnd u cur ha.1 ha.2 hu
+  unfold splitAtVertex
+  simp only [ht]
+  exact ⟨key.symm, ha.2⟩
+
+/-- All histories of an active edge: created from a record of the queue, truncated by
+intersections, restarted by the `current_position == intersection` branch, or the lower part of a
+split at a vertex lying on it. -/
 inductive Reach (C : K → P K) : Active K → Prop
   | ofRec (r : EdgeRec K) : RepRec C r → r.isEdge = true → Reach C (activate r.pos (pendingOf r))
   | cut (a : Active K) (ta : K) (ip : P K) : Reach C a → ip = P.lerp a.from_ a.to ta →
       Reach C (cutActive a ta ip).1
   | touch (a : Active K) (ta : K) (ip : P K) : Reach C a → ip = P.lerp a.from_ a.to ta →
       Reach C (touchActive a ta ip)
+  | split (a : Active K) (cur : P K) : Reach C a → a.from_ ≠ a.to →
+      (∃ u, cur = P.lerp a.from_ a.to u) → Reach C (activate cur (splitAtVertex cur a).2)
 
-/-- `rep_split_at_vertex` — PARTIAL: along every history that does not contain a vertex lying on
-the edge followed by another cut (i.e. without the lower part of `splitAtVertex`), the active edge
-satisfies `Rep`, hence so does every record cut from it. Missing: histories through
-`splitAtVertex`, for which the statement is false (`rep_split_at_vertex_witness`). -/
-theorem rep_split_at_vertex_partial (C : K → P K) (hC : AffineParam C) (a : Active K)
-    (h : Reach C a) :
+/-- `rep_history`: along EVERY history — splits at vertices included — the active edge satisfies
+`Rep`, hence so does every record cut from it. -/
+theorem rep_history (C : K → P K) (hC : AffineParam C) (a : Active K) (h : Reach C a) :
     RepActive C a ∧ ∀ ta ip r, ip = P.lerp a.from_ a.to ta → (cutActive a ta ip).2 = some r →
       RepRec C r := by
   have hrep : RepActive C a := by
@@ -323,12 +310,25 @@ theorem rep_split_at_vertex_partial (C : K → P K) (hC : AffineParam C) (a : Ac
     | ofRec r hr he => exact rep_activate C r.pos _ (rep_pending_of C r hr he)
     | cut a ta ip _ hip ih => exact (rep_intersection C hC a ta ip ih hip).1
     | touch a ta ip _ hip ih => exact rep_touch C hC a ta ip ih hip
+    | split a cur _ hne hon ih => exact rep_activate C cur _ (rep_split_at_vertex C hC cur a ih hne hon)
   exact ⟨hrep, fun ta ip r hip hr => ((rep_intersection C hC a ta ip hrep hip).2 r hr).1⟩
 
-example : Reach (P.lerp (⟨0, 0⟩ : P ℚ) ⟨0, 10⟩)
-    (activate ⟨0, 0⟩ (pendingOf ⟨⟨0, 0⟩, ⟨0, 10⟩, 0, 1, 1, true, 0, 1⟩)) :=
-  Reach.ofRec ⟨⟨0, 0⟩, ⟨0, 10⟩, 0, 1, 1, true, 0, 1⟩
-    ⟨by simp [lerp_zero], fun _ => by simp [lerp_one]⟩ rfl
+/-- non-vacuity, on the former witness: edge (0,0) → (0,10) split at (0,5), the lower part crossed
+at (0,7.5): the record now reports t = 3/4 -/
+example :
+    let A : P ℚ := ⟨0, 0⟩
+    let B : P ℚ := ⟨0, 10⟩
+    let r0 : EdgeRec ℚ := ⟨A, B, 0, 1, 1, true, 0, 1⟩
+    let a0 := activate A (pendingOf r0)
+    let a1 := activate ⟨0, 5⟩ (splitAtVertex ⟨0, 5⟩ a0).2
+    RepActive (P.lerp A B) a0 ∧ a0.from_ ≠ a0.to ∧ (∃ u : ℚ, (⟨0, 5⟩ : P ℚ) = P.lerp a0.from_ a0.to u) ∧
+    ∃ r, (cutActive a1 (1/2) ⟨0, 15/2⟩).2 = some r ∧ r.pos = ⟨0, 15/2⟩ ∧ r.t0 = 3/4 := by
+  refine ⟨⟨by simp [activate, pendingOf, lerp_zero], by simp [activate, pendingOf, lerp_one]⟩,
+    by simp [activate, pendingOf], ⟨1/2, by simp [activate, pendingOf, lerp_def]; norm_num⟩, ?_⟩
+  refine ⟨⟨⟨0, 15/2⟩, ⟨0, 10⟩, 3/4, 1, 1, true, 0, 1⟩, ?_, rfl, rfl⟩
+  simp [cutActive, activate, splitAtVertex, pendingOf, splitT, solveTForX, solveTForY, beq_P,
+    isAfter, beq_K, remapT_eq, zero_K, sc_abs]
+  norm_num
 
 /-! ### Curves -/
 
